@@ -18,9 +18,9 @@ package account
 //@ def wfAccounts(as *Registry) bool := as != nil && as.index != nil && live(as.index) && as.swaps != nil
 //@     && (forall n string :: {key(as.index, n)} (n in as.index) ==> okAccount(as.index[n]) && as.index[n].name == n)
 //@ func NewRegistry
-//@   trusted
 //@   modifies nothing
 //@   ensures wfAccounts(result) && fresh(result) && fresh(result.index) && fresh(result.swaps) && live(result.swaps)
+//@   loop 1 invariant wfAccounts(reg) && fresh(reg) && fresh(reg.index) && fresh(reg.swaps) && live(reg.swaps)
 //
 //@ func (*Registry).getOrCreatePath
 //@   trusted
